@@ -76,6 +76,61 @@ func hasProp(ps []string, p string) bool {
 	return false
 }
 
+// exprReach: contract keys of the functions of package parse reachable from
+// parse.Expr through static calls, closures and function values they mention
+// (scanner state functions are handed around as values).
+func (p *Prog) exprReach() map[string]bool {
+	p.exprReachOnce.Do(func() {
+		p.exprReachKeys = map[string]bool{}
+		p.exprReachDisp = map[string]bool{}
+		root := p.funcs[repoModule+"/parse::Expr"]
+		if root == nil {
+			return
+		}
+		seen := map[*ssa.Function]bool{}
+		var visit func(g *ssa.Function)
+		visit = func(g *ssa.Function) {
+			if g == nil || seen[g] {
+				return
+			}
+			seen[g] = true
+			if !p.inRepo(g) || g.Blocks == nil {
+				return
+			}
+			p.exprReachKeys[p.contractKey(g)] = true
+			p.exprReachDisp[p.fnDisplay(g)] = true
+			for _, b := range g.Blocks {
+				for _, ins := range b.Instrs {
+					var ops [16]*ssa.Value
+					for _, op := range ins.Operands(ops[:0]) {
+						if op == nil || *op == nil {
+							continue
+						}
+						switch v := (*op).(type) {
+						case *ssa.Function:
+							visit(v)
+						case *ssa.MakeClosure:
+							if f2, ok := v.Fn.(*ssa.Function); ok {
+								visit(f2)
+							}
+						}
+					}
+				}
+			}
+			for _, an := range g.AnonFuncs {
+				visit(an)
+			}
+		}
+		visit(root)
+	})
+	return p.exprReachKeys
+}
+
+func (p *Prog) exprReachFn(disp string) bool {
+	p.exprReach()
+	return p.exprReachDisp[disp]
+}
+
 // contractsFor returns the repo contracts relevant to a property, sorted.
 func (p *Prog) contractsFor(prop string) []string {
 	var keys []string
@@ -85,6 +140,12 @@ func (p *Prog) contractsFor(prop string) []string {
 		}
 		// C06 also owns the typed-nil obligations of every function of the render package
 		renderPkg := prop == "C06" && c.PkgPath == repoModule+"/soyhtml"
+		// C06 ("parsing a globals file returns normally") also owns the no-panic / termination
+		// obligations (labelled C05) of the scanner and expression-parser functions that
+		// parse.Expr can reach: tree.recover re-raises runtime panics on purpose
+		if prop == "C06" && hasProp(c.Props, "C05") && p.exprReach()[k] {
+			renderPkg = true
+		}
 		if prop == "" || renderPkg || hasProp(c.Props, prop) || c.clauseHasProp(prop) || (c.Key == "init" && p.specs.tableHasProp(c.PkgPath, prop)) {
 			keys = append(keys, k)
 		}
@@ -168,7 +229,7 @@ func runCheck(p *Prog, prop, tier string, timeout, workers int, verbose bool) in
 		}
 		out.Results = append(out.Results, r)
 		for _, o := range r.Obls {
-			if o.Kind == "reach" || hasProp(o.Props, prop) {
+			if o.Kind == "reach" || hasProp(o.Props, prop) || (prop == "C06" && hasProp(o.Props, "C05") && p.exprReachFn(r.Fn)) {
 				out.Obls = append(out.Obls, o)
 			}
 		}
